@@ -36,36 +36,52 @@ package scheduler
 //@   ensures n == g.dict[id]
 //@   ensures n == nil || allocated(n)
 
+// isReady runs inside the scheduling loop while workers and signallers act: between any two of its reads a *running*
+// step may have moved on (node_rely).  What it concludes is stated about the moment it returns, and rests on facts
+// that interference cannot undo: a step that finished, failed, was skipped or canceled stays so, and the visited
+// step itself is not running.
+//@ pred node_rely(node *Node) twostate uses=Node.data.State =
+//@      forall n *Node :: old(n.data.State.Status) != NodeStatusRunning ==>
+//@         (n.data.State.Status == old(n.data.State.Status) && (n == node ==> n.data.State.Error == old(n.data.State.Error)))
 //@ fn isReady(g, node) (ready)
 //@   props C01 C02
 //@   safety
+//@   interference node_rely
 //@   requires graph_wf(g)
 //@   requires node.data.State.Status == NodeStatusNone
-//@   modifies node.data.State.Status, node.data.State.Error
-//@   ensures [C01,C02 ready_iff_deps_ok] ready <==>
-//@        (forall j int :: 0 <= j && j < len(g.to[node.id]) ==> old(dep_ok(g.dict[g.to[node.id][j]])))
-//@   ensures [C01 ready_keeps_status] ready ==> node.data.State.Status == old(node.data.State.Status)
-//@   ensures [C02 label_justified] node.data.State.Status == old(node.data.State.Status) ||
+//@   modifies heap(Node.data.State)
+//@   ensures [C01,C02 ready_means_every_dependency_lets_it_proceed] ready ==>
+//@        (forall j int :: 0 <= j && j < len(g.to[node.id]) ==> dep_ok(g.dict[g.to[node.id][j]]))
+//@   ensures [C01 satisfied_dependencies_make_it_ready]
+//@        (forall j int :: 0 <= j && j < len(g.to[node.id]) ==> old(dep_ok(g.dict[g.to[node.id][j]]))) ==> ready
+//@   ensures [C01 ready_keeps_status] ready ==> node.data.State.Status == NodeStatusNone
+//@   ensures [C02 label_justified] node.data.State.Status == NodeStatusNone ||
 //@        (node.data.State.Status == NodeStatusCancel &&
-//@           (exists j int :: 0 <= j && j < len(g.to[node.id]) && old(cancel_blocker(g.dict[g.to[node.id][j]])))) ||
+//@           (exists j int :: 0 <= j && j < len(g.to[node.id]) && cancel_blocker(g.dict[g.to[node.id][j]]))) ||
 //@        (node.data.State.Status == NodeStatusSkipped &&
-//@           (exists j int :: 0 <= j && j < len(g.to[node.id]) && old(skip_blocker(g.dict[g.to[node.id][j]]))))
+//@           (exists j int :: 0 <= j && j < len(g.to[node.id]) && skip_blocker(g.dict[g.to[node.id][j]])))
 //@   ensures [C02 blocked_is_marked]
 //@        (exists j int :: 0 <= j && j < len(g.to[node.id]) &&
 //@             (old(cancel_blocker(g.dict[g.to[node.id][j]])) || old(skip_blocker(g.dict[g.to[node.id][j]]))))
 //@        ==> node.data.State.Status != NodeStatusNone
-//@   loop 0 invariant [C01,C02 ready_prefix] ready <==>
-//@        (forall j int :: 0 <= j && j <= idx ==> old(dep_ok(g.dict[g.to[node.id][j]])))
-//@   loop 0 invariant [C01 ready_unchanged] ready ==> node.data.State.Status == old(node.data.State.Status)
-//@   loop 0 invariant [C02 label_prefix] node.data.State.Status == old(node.data.State.Status) ||
+//@   ensures [C02 other_steps_are_not_touched_by_the_gate] forall n *Node :: n != node && old(n.data.State.Status) != NodeStatusRunning ==>
+//@        n.data.State.Status == old(n.data.State.Status)
+//@   loop 0 invariant [C01,C02 ready_prefix] ready ==>
+//@        (forall j int :: 0 <= j && j <= idx ==> dep_ok(g.dict[g.to[node.id][j]]))
+//@   loop 0 invariant [C01 ok_prefix] (forall j int :: 0 <= j && j <= idx ==> old(dep_ok(g.dict[g.to[node.id][j]]))) ==> ready
+//@   loop 0 invariant [C01 ready_unchanged] ready ==> node.data.State.Status == NodeStatusNone
+//@   loop 0 invariant [not_running] node.data.State.Status != NodeStatusRunning
+//@   loop 0 invariant [C02 label_prefix] node.data.State.Status == NodeStatusNone ||
 //@        (node.data.State.Status == NodeStatusCancel &&
-//@           (exists j int :: 0 <= j && j <= idx && old(cancel_blocker(g.dict[g.to[node.id][j]])))) ||
+//@           (exists j int :: 0 <= j && j <= idx && cancel_blocker(g.dict[g.to[node.id][j]]))) ||
 //@        (node.data.State.Status == NodeStatusSkipped &&
-//@           (exists j int :: 0 <= j && j <= idx && old(skip_blocker(g.dict[g.to[node.id][j]]))))
+//@           (exists j int :: 0 <= j && j <= idx && skip_blocker(g.dict[g.to[node.id][j]])))
 //@   loop 0 invariant [C02 marked_prefix]
 //@        (exists j int :: 0 <= j && j <= idx &&
 //@             (old(cancel_blocker(g.dict[g.to[node.id][j]])) || old(skip_blocker(g.dict[g.to[node.id][j]]))))
 //@        ==> node.data.State.Status != NodeStatusNone
+//@   loop 0 invariant [others_untouched] forall n *Node :: n != node && old(n.data.State.Status) != NodeStatusRunning ==>
+//@        n.data.State.Status == old(n.data.State.Status)
 
 // ---------------------------------------------------------------------------------------------
 // Status vector abstractions
@@ -410,6 +426,10 @@ package scheduler
 //@   spawn modifies ghost launch, ghost chk.fresh
 //@   spawn ensures launch == upd(old(launch), node, old(launch[node]) + 1) && !chk.fresh
 //@   assert before (*Scheduler).execNode [C05 stop_flag_is_consulted_before_every_execution] chk.fresh
+//@   assert before (*Node).setStatus [C01,C15 worker_writes_only_its_own_step] arg0 == node && arg1 != NodeStatusRunning
+//@   assert before (*Node).setErr [C01 worker_writes_only_its_own_step] arg0 == node
+//@   assert before (*Node).incRetryCount [C01 worker_writes_only_its_own_step] arg0 == node
+//@   assert before (*Node).incDoneCount [C01 worker_writes_only_its_own_step] arg0 == node
 //@   ensures [C05 nothing_is_executed_once_the_stop_is_registered] old(sc.canceled) == 1 ==> (nexec == old(nexec) && eff.exec == old(eff.exec))
 //@   ensures [C03 at_most_one_execution] old(w_scope(sc, node)) ==>
 //@        (nexec == old(nexec) || nexec == upd(old(nexec), node, old(nexec[node]) + 1))
@@ -446,11 +466,26 @@ package scheduler
 //@   loop 0 invariant [d] old(w_scope(sc, node)) ==> (setupSucceed ==> node.data.State.Status == old(node.data.State.Status))
 //@   loop 0 invariant [e] old(w_scope(sc, node)) ==> (!setupSucceed ==> node.data.State.Status == NodeStatusError && sc.lastError != nil)
 
+// What the other goroutines (workers, signallers) may do between two actions of the scheduling loop: register a stop,
+// set the run's last error, and move a *running* step to any state; a step that is not running is not theirs.
+// The last conjunct follows from the one before it by induction over the node list (lemmas running_count_shrinks_base
+// and running_count_shrinks_step; the induction itself is the one step taken on paper).
+//@ pred sched_rely(sc *Scheduler, g *ExecutionGraph) twostate uses=Node.data.State,Scheduler.canceled,Scheduler.lastError =
+//@      (old(sc.canceled) == 1 ==> sc.canceled == 1) &&
+//@      (forall n *Node :: old(n.data.State.Status) != NodeStatusRunning ==> n.data.State.Status == old(n.data.State.Status)) &&
+//@      count_running(g, len(g.nodes)) <= old(count_running(g, len(g.nodes)))
+//@ lemma running_count_shrinks_base(g *ExecutionGraph) twostate props C15: count_running(g, 0) <= old(count_running(g, 0))
+//@ lemma running_count_shrinks_step(g *ExecutionGraph, n int) twostate props C15:
+//@      (g.nodes == old(g.nodes) && 0 <= n && n < len(g.nodes) &&
+//@       (old(status_at(g, n)) != NodeStatusRunning ==> status_at(g, n) == old(status_at(g, n))) &&
+//@       count_running(g, n) <= old(count_running(g, n)))
+//@      ==> count_running(g, n + 1) <= old(count_running(g, n + 1))
 //@ fn (*Scheduler).Schedule(sc, ctx, g, done) (err)
+//@   interference sched_rely
 //@   props C01 C02 C03 C04 C05 C10 C11 C15
 //@   requires nodes_wf(g) && graph_wf(g)
 //@   requires forall i int :: 0 <= i && i < len(g.nodes) ==> has(g.dict, g.nodes[i].id)
-//@   modifies sc.handlers, sc.lastError, g.startedAt, g.finishedAt, heap(Node), heap(alloc), heap(map(dag.HandlerType, *Node)),
+//@   modifies sc.handlers, heap(Scheduler.lastError), heap(Scheduler.canceled), g.startedAt, g.finishedAt, heap(Node), heap(alloc), heap(map(dag.HandlerType, *Node)),
 //@            heap(elems(string)), heap(elems(dag.Condition)),
 //@            ghost launch, ghost hruns, ghost hlog, ghost nsetup, ghost nexec, ghost execfail, ghost dirty, ghost ntear,
 //@            ghost eff.exec, ghost eff.env, ghost eff.fs, ghost eff.condfail, ghost eff.waited,
@@ -466,7 +501,6 @@ package scheduler
 //@   assert before (*Node).setStatus#1 [C03,C10 launched_from_none] arg0.data.State.Status == NodeStatusNone && arg1 == NodeStatusRunning
 //@   assert before (*Node).setStatus#1 [C15 below_limit]
 //@        sc.maxActiveRuns > 0 ==> count_running(g, len(g.nodes)) < sc.maxActiveRuns
-//@   assert before go [C05 not_canceled_at_launch] sc.canceled != 1
 //@   assert before context.WithTimeout [C05 run_deadline_is_the_configured_timeout] sc.timeout > 0 && arg1 == sc.timeout
 //@   assert before go [C05 stop_flag_is_consulted_before_every_launch] chk.fresh
 //@   assert before go [C01 launches_graph_node] arg0 == g.nodes[idx + 1]
@@ -476,10 +510,10 @@ package scheduler
 //@   loop 1 step [C03 at_most_one_launch_per_visit]
 //@        launch == iter(launch) ||
 //@        (launch == upd(iter(launch), g.nodes[idx], iter(launch[g.nodes[idx]]) + 1) &&
-//@         iter(g.nodes[idx].data.State.Status) == NodeStatusNone)
+//@         (iter(g.nodes[idx].data.State.Status) == NodeStatusNone || iter(g.nodes[idx].data.State.Status) == NodeStatusRunning))
 //@   loop 1 step [C02,C10 only_none_nodes_are_marked]
 //@        forall i int :: 0 <= i && i < len(g.nodes) ==>
-//@           (g.nodes[i].data.State.Status == iter(g.nodes[i].data.State.Status) ||
+//@           (g.nodes[i].data.State.Status == iter(g.nodes[i].data.State.Status) || iter(g.nodes[i].data.State.Status) == NodeStatusRunning ||
 //@            (g.nodes[i] == g.nodes[idx] && iter(g.nodes[i].data.State.Status) == NodeStatusNone))
 //@   assert before (*Scheduler).runHandlerNode [C04 handlers_after_wait] eff.waited > old(eff.waited)
 //@   assert before (*Scheduler).runHandlerNode [C04 handler_is_configured] arg2 != nil && arg2 == sc.handlers[h] && h == handlers[idx + 1]
